@@ -273,6 +273,9 @@ func (e *Exec) elemSort(t types.Type) Sort { return e.sortOf(t) }
 // zeroVal builds the zero value of a type.
 func (e *Exec) zeroVal(st *State, t types.Type) Val {
 	if isTimeType(t) {
+		if !e.IntMode {
+			return &OpaqueVal{T: t, Name: "time.zero"}
+		}
 		return &TimeVal{Sec: e.C.Inti(-62135596800), Nsec: e.C.Inti(0)}
 	}
 	switch u := t.Underlying().(type) {
@@ -389,6 +392,18 @@ func (e *Exec) arrGet(st *State, a *ArrayVal, idx *Term) Val {
 	if a.Scalar {
 		return e.sel(a.C, idx)
 	}
+	if a.Sym != "" {
+		v := e.symVal(st, a.ElemT, fmt.Sprintf("%s[#%d]", a.Sym, idx.ID()), 0)
+		if a.SymMax != nil {
+			switch x := v.(type) {
+			case *StringVal:
+				st.assume(e.leIdx(x.Len, a.SymMax))
+			case *SliceVal:
+				st.assume(e.leIdx(x.Len, a.SymMax))
+			}
+		}
+		return v
+	}
 	if !idx.IsConst() {
 		e.bail("symbolic index into array of %s", a.ElemT)
 	}
@@ -420,6 +435,9 @@ func (e *Exec) update(st *State, v Val, path []PathElem, f func(old Val) Val) Va
 			}
 			nv := f(e.sel(x.C, pe.Idx)).(*Term)
 			return &ArrayVal{ElemT: x.ElemT, Scalar: true, Elem: x.Elem, C: e.arrStore(x.C, pe.Idx, nv), Len: x.Len}
+		}
+		if x.Sym != "" {
+			e.bail("store into symbolic list of %s", x.ElemT)
 		}
 		if !pe.Idx.IsConst() {
 			e.bail("symbolic index store into array of %s", x.ElemT)
@@ -534,7 +552,7 @@ func (e *Exec) store(st *State, p *PtrVal, v Val) {
 		e.bail("store through nil pointer survived nil check")
 	}
 	if st.Record != nil {
-		st.Record.Objs[p.Obj] = true
+		st.Record.note(p.Obj, p.Path)
 	}
 	e.frameCheck(st, p)
 	st.Heap[p.Obj] = e.update(st, e.root(st, p.Obj), p.Path, func(Val) Val { return v })
@@ -589,13 +607,13 @@ func (e *Exec) simple(st *State, fr *Frame, instr ssa.Instruction) []stfr {
 		idx := e.toIdx(e.val(st, fr, in.Index).(*Term), in.Index.Type())
 		switch a := x.(type) {
 		case *ArrayVal:
-			e.oblige(st, fr, in, "idx", e.ltIdx(idx, a.Len))
+			e.oblige(st, fr, in, "idx", e.inRange(idx, a.Len))
 			if st.Dead {
 				return nil
 			}
 			fr.Env[in] = e.arrGet(st, a, idx)
 		case *StringVal:
-			e.oblige(st, fr, in, "idx", e.ltIdx(idx, a.Len))
+			e.oblige(st, fr, in, "idx", e.inRange(idx, a.Len))
 			if st.Dead {
 				return nil
 			}
@@ -707,7 +725,7 @@ func (e *Exec) indexAddr(st *State, fr *Frame, in *ssa.IndexAddr) []stfr {
 	idx := e.toIdx(e.val(st, fr, in.Index).(*Term), in.Index.Type())
 	switch a := x.(type) {
 	case *SliceVal:
-		e.oblige(st, fr, in, "idx", e.ltIdx(idx, a.Len))
+		e.oblige(st, fr, in, "idx", e.inRange(idx, a.Len))
 		if st.Dead {
 			return nil
 		}
@@ -723,7 +741,7 @@ func (e *Exec) indexAddr(st *State, fr *Frame, in *ssa.IndexAddr) []stfr {
 			return nil
 		}
 		at := in.X.Type().Underlying().(*types.Pointer).Elem().Underlying().(*types.Array)
-		e.oblige(st, fr, in, "idx", e.ltIdx(idx, e.idx(at.Len())))
+		e.oblige(st, fr, in, "idx", e.inRange(idx, e.idx(at.Len())))
 		if st.Dead {
 			return nil
 		}
@@ -771,7 +789,7 @@ func (e *Exec) sliceInstr(st *State, fr *Frame, in *ssa.Slice) {
 		if hi == nil {
 			hi = a.Len
 		}
-		e.oblige(st, fr, in, "slice", e.C.And(e.leIdx(hi, a.Len), e.leIdx(lo, hi)))
+		e.oblige(st, fr, in, "slice", e.C.And(e.nonNeg(lo), e.leIdx(hi, a.Len), e.leIdx(lo, hi)))
 		fr.Env[in] = &StringVal{C: a.C, Off: e.C.Add(a.Off, lo), Len: e.C.Sub(hi, lo)}
 	case *SliceVal:
 		if hi == nil {
@@ -779,10 +797,10 @@ func (e *Exec) sliceInstr(st *State, fr *Frame, in *ssa.Slice) {
 		}
 		capv := a.Cap
 		if max != nil {
-			e.oblige(st, fr, in, "slice", e.C.And(e.leIdx(max, a.Cap), e.leIdx(hi, max), e.leIdx(lo, hi)))
+			e.oblige(st, fr, in, "slice", e.C.And(e.nonNeg(lo), e.leIdx(max, a.Cap), e.leIdx(hi, max), e.leIdx(lo, hi)))
 			capv = max
 		} else {
-			e.oblige(st, fr, in, "slice", e.C.And(e.leIdx(hi, a.Cap), e.leIdx(lo, hi)))
+			e.oblige(st, fr, in, "slice", e.C.And(e.nonNeg(lo), e.leIdx(hi, a.Cap), e.leIdx(lo, hi)))
 		}
 		fr.Env[in] = &SliceVal{Obj: a.Obj, Path: a.Path, Off: e.C.Add(a.Off, lo), Len: e.C.Sub(hi, lo), Cap: e.C.Sub(capv, lo), Nil: a.Nil, ElemT: a.ElemT}
 	case *PtrVal: // *[N]T
@@ -797,10 +815,10 @@ func (e *Exec) sliceInstr(st *State, fr *Frame, in *ssa.Slice) {
 		}
 		capv := n
 		if max != nil {
-			e.oblige(st, fr, in, "slice", e.C.And(e.leIdx(max, n), e.leIdx(hi, max), e.leIdx(lo, hi)))
+			e.oblige(st, fr, in, "slice", e.C.And(e.nonNeg(lo), e.leIdx(max, n), e.leIdx(hi, max), e.leIdx(lo, hi)))
 			capv = max
 		} else {
-			e.oblige(st, fr, in, "slice", e.C.And(e.leIdx(hi, n), e.leIdx(lo, hi)))
+			e.oblige(st, fr, in, "slice", e.C.And(e.nonNeg(lo), e.leIdx(hi, n), e.leIdx(lo, hi)))
 		}
 		fr.Env[in] = &SliceVal{Obj: a.Obj, Path: a.Path, Off: lo, Len: e.C.Sub(hi, lo), Cap: e.C.Sub(capv, lo), Nil: e.C.False(), ElemT: at.Elem()}
 	default:
@@ -814,7 +832,7 @@ func (e *Exec) makeSlice(st *State, fr *Frame, in *ssa.MakeSlice) {
 	elem := in.Type().Underlying().(*types.Slice).Elem()
 	// runtime panics: len out of range / cap out of range
 	limit := e.lenLimit()
-	e.oblige(st, fr, in, "makeslice", e.C.And(e.leIdx(ln, cp), e.leIdx(cp, limit)))
+	e.oblige(st, fr, in, "makeslice", e.C.And(e.nonNeg(ln), e.leIdx(ln, cp), e.leIdx(cp, limit)))
 	if st.Dead {
 		return
 	}
@@ -999,6 +1017,9 @@ func (e *Exec) arith(st *State, fr *Frame, in ssa.Instruction, op token.Token, a
 // wrapInt: value of mathematical integer v wrapped to type t.
 func (e *Exec) wrapInt(v *Term, t types.Type) *Term {
 	c := e.C
+	if lo, hi := typeRange(t); c.within(v, lo, hi) {
+		return v
+	}
 	b := t.Underlying().(*types.Basic)
 	w := intWidth(b)
 	m := c.IntConst(new(big.Int).Lsh(big.NewInt(1), uint(w)))
@@ -1080,14 +1101,21 @@ func (e *Exec) arithInt(st *State, fr *Frame, in ssa.Instruction, op token.Token
 	case token.OR:
 		// a | b where the operands have provably disjoint bit ranges: hi multiple of 2^k, lo < 2^k
 		if k, ok := e.multipleOfPow2(a); ok {
-			if e.belowPow2(b, k) {
+			if e.belowPow2(b, k) || c.within(b, big.NewInt(0), new(big.Int).Sub(pow2(k), big.NewInt(1))) {
 				return c.Add(a, b)
 			}
 		}
 		if k, ok := e.multipleOfPow2(b); ok {
-			if e.belowPow2(a, k) {
+			if e.belowPow2(a, k) || c.within(a, big.NewInt(0), new(big.Int).Sub(pow2(k), big.NewInt(1))) {
 				return c.Add(a, b)
 			}
+		}
+		// OR of sums of disjoint shifted bytes: (x | y) where both are non-negative and x is a multiple of 2^k > y
+		if ka, ok := e.lowZeroBits(a); ok && c.within(b, big.NewInt(0), new(big.Int).Sub(pow2(ka), big.NewInt(1))) {
+			return c.Add(a, b)
+		}
+		if kb, ok := e.lowZeroBits(b); ok && c.within(a, big.NewInt(0), new(big.Int).Sub(pow2(kb), big.NewInt(1))) {
+			return c.Add(a, b)
 		}
 	}
 	e.bail("operator %s not expressible in arith-int mode at %s", op, e.posOf(in))
@@ -1112,6 +1140,24 @@ func (e *Exec) multipleOfPow2(t *Term) (uint, bool) {
 			if a.IsConst() && a.C.Sign() > 0 && a.C.BitLen() > 1 && new(big.Int).And(a.C, new(big.Int).Sub(a.C, big.NewInt(1))).Sign() == 0 {
 				return uint(a.C.BitLen() - 1), true
 			}
+		}
+	}
+	return 0, false
+}
+
+// lowZeroBits: number of guaranteed-zero low bits of t (t is a sum of multiples of powers of two)
+func (e *Exec) lowZeroBits(t *Term) (uint, bool) {
+	if k, ok := e.multipleOfPow2(t); ok {
+		return k, true
+	}
+	if t.Op == "+" && len(t.Args) == 2 {
+		ka, oka := e.lowZeroBits(t.Args[0])
+		kb, okb := e.lowZeroBits(t.Args[1])
+		if oka && okb {
+			if ka < kb {
+				return ka, true
+			}
+			return kb, true
 		}
 	}
 	return 0, false
@@ -1204,7 +1250,6 @@ func (e *Exec) convert(st *State, fr *Frame, in ssa.Instruction, x Val, from, to
 		s := x.(*StringVal)
 		av := &ArrayVal{ElemT: types.Typ[types.Uint8], Scalar: true, Elem: e.elemSort(types.Typ[types.Uint8]), C: s.C, Len: c.Add(s.Off, s.Len)}
 		id := e.newObj(st, av, &ObjMeta{T: types.NewArray(types.Typ[types.Uint8], 0), Fresh: true})
-		e.accountAlloc(st, fr, in, types.Typ[types.Uint8], s.Len)
 		return &SliceVal{Obj: id, Off: s.Off, Len: s.Len, Cap: s.Len, Nil: c.False(), ElemT: to.Underlying().(*types.Slice).Elem()}
 	case isByteSlice(from) && isStringType(to):
 		s := x.(*SliceVal)
@@ -1212,7 +1257,6 @@ func (e *Exec) convert(st *State, fr *Frame, in ssa.Instruction, x Val, from, to
 			return e.strConst("")
 		}
 		av := e.sliceBacking(st, s)
-		e.accountAlloc(st, fr, in, types.Typ[types.Uint8], s.Len)
 		return &StringVal{C: av.C, Off: s.Off, Len: s.Len}
 	case isStringType(from) && isRuneSlice(to):
 		return e.stringToRunes(st, fr, in, x.(*StringVal), to)
@@ -1452,7 +1496,7 @@ func (e *Exec) freshString(st *State, name string, maxLen int64) *StringVal {
 	if maxLen > 0 {
 		st.assume(e.leIdx(l, e.idx(maxLen)))
 	}
-	return &StringVal{C: &ArrBase{Name: nm, Elem: e.elemSort(types.Typ[types.Uint8])}, Off: e.idx(0), Len: l}
+	return &StringVal{C: e.arrBase(nm, types.Typ[types.Uint8]), Off: e.idx(0), Len: l}
 }
 
 func (e *Exec) noteAbstract(st *State, what string) {
@@ -1489,4 +1533,23 @@ func debugf(format string, args ...interface{}) {
 	if os.Getenv("GOVC_DEBUG") != "" {
 		fmt.Fprintf(os.Stderr, format+"\n", args...)
 	}
+}
+
+// arrBase creates an uninterpreted array of elements of Go type elemT; in int mode the element range
+// is registered so that every query using the array carries the range axiom.
+func (e *Exec) arrBase(name string, elemT types.Type) *ArrBase {
+	es := e.elemSort(elemT)
+	if e.IntMode && es.IsInt() && isIntType(elemT) {
+		lo, hi := typeRange(elemT)
+		e.C.appRange[name] = &ival{lo, hi}
+	}
+	return &ArrBase{Name: name, Elem: es}
+}
+
+// nonNeg: 0 <= t for index-sort terms (vacuous in bit-vector mode, where bounds are compared unsigned).
+func (e *Exec) nonNeg(t *Term) *Term {
+	if e.IntMode {
+		return e.C.ILe(e.C.Inti(0), t)
+	}
+	return e.C.True()
 }
